@@ -2303,7 +2303,7 @@ class Side:
         buffer.write(ind + '\t\t{\n')
         assert len(self.disp_allowed_vert) == 10, self.disp_allowed_vert
         buffer.write(f'{ind}\t\t"10" "{" ".join(map(str, self.disp_allowed_vert))}"\n')
-        buffer.write(f'{ind}\t\t}}\n{ind}\t}}\n')
+        buffer.write(f'{ind}\t\t}}\n')
 
         if disp_multiblend and any(vert.multi_blend for vert in self._disp_verts):
             self._export_disp_rowset('multiblend', 'multi_blend', buffer, ind, size)
@@ -2317,6 +2317,8 @@ class Side:
                     ]
                     buffer.write(f'{ind}\t\t"row{y}" "{" ".join(row)}"\n')
                 buffer.write(ind + '\t\t}\n')
+        # Close the dispinfo block - the multiblend data lives inside it.
+        buffer.write(f'{ind}\t}}\n')
 
     def _export_disp_rowset(self, name: str, membr: str, f: IO[str], ind: str, size: int) -> None:
         """Write out one of the displacement vertex arrays."""
